@@ -16,10 +16,11 @@ CLAIM = ("Every 2/3/4-letter swizzle over xyzw/rgba/stpq of vec2-4 in member-fun
          "(scalar->diagonal, C*R scalars, columns, 81 shape conversions, cross-type) and the component-filling quaternion constructors are shown to place "
          "static_cast<T>(i-th supplied component) at component i (sext/zext/trunc, int->float RNE, float->int RTZ in range, bool <=> != 0). An accessor that the property "
          "names but that does not compile is reported as a violation of its 'exists' obligation.")
-BOUNDS = ('component values fully symbolic (all bit patterns); float->integer conversions only for values whose truncation is representable in the target type (outside is C20); '
-          'element types: quick float,int32 (swizzles) and {float,int32}x{float,int32,uint8,bool,double} (constructors); thorough adds uint8,double,int64,uint32,int16,bool; '
-          'configurations: default, GLM_FORCE_SWIZZLE (function form), GLM_FORCE_SWIZZLE+GLM_FORCE_INTRINSICS at SSE2 (quick) and AVX2 (thorough) with packed and aligned_highp operands, '
-          'simulated MS-extension operator form (-D_MSC_EXTENSIONS, thorough), GLM_FORCE_XYZW_ONLY (thorough)')
+BOUNDS = ('component values fully symbolic (all bit patterns); float->integer conversions only for values whose truncation is representable in the target type (outside is C20). '
+          'quick: swizzles of float vectors in function form, operator form (packed operands, all three letter sets, incl. assignment) and SSE2 form (aligned vec3/vec4, xyzw), free functions for float and int; '
+          'vector constructors for destination {float,int} x source {float,int,uint8,bool,double} with rotating source types/qualifiers per argument; matrix constructors for float (sources double,int), all 9x9 shapes; quaternion float/double. '
+          'thorough: swizzles additionally for int, uint8, double (uint for aligned), AVX2, simulated MS-extension operator form (-D_MSC_EXTENSIONS), GLM_FORCE_XYZW_ONLY; constructors over '
+          '{float,double,int,uint,int8,uint16,int64,bool} x the same + uint8, aligned_highp destinations under SSE2 and AVX2, matrices float/double/int, GLM_FORCE_QUAT_DATA_WXYZ')
 OUTSIDE = ('wrappers whose optimised IR loads past a (compiler-shrunk) stack slot and that AddressSanitizer does not flag natively are recorded as not encoded (non-mandatory); compilers other than clang++-14 (g++ only through the native replay/validation build); out-of-range float->int conversions; quaternion constructors that compute (from axes, '
            'Euler angles, matrices); swizzle arithmetic helper operators (u.xy + v.zw); initializer-list and default constructors')
 ASSUMPTIONS = ['native validation/replay builds of the operator-swizzle units use clang++-14 (g++ needs minutes per TU on these unions); all other units use g++ and clang++-14',
